@@ -189,7 +189,9 @@ func runC17(x *Exec) {
 			db    *kv.DB
 			state kvState
 			dirty bool
+			group int // handles related by Clone since their last Open share a group (and, inside mast, tree nodes)
 		}
+		groups := 0
 		versions := map[string]kvState{}              // committed version name -> state
 		committedVals := map[string]map[string]bool{} // key -> set of "time|value" that were the entry of some committed version
 		tombTimes := map[string]map[int64]bool{}
@@ -231,6 +233,8 @@ func runC17(x *Exec) {
 				return err
 			}
 			h.db, h.state, h.dirty = db, want, false
+			groups++
+			h.group = groups
 			// a read-write open of several versions commits their merge
 			if roots, err := db.Roots(); err == nil && len(roots) == 1 {
 				if _, known := versions[roots[0]]; !known {
@@ -267,6 +271,30 @@ func runC17(x *Exec) {
 				}
 			}
 			if !reflect.DeepEqual(map[string]kvEntry(got), map[string]kvEntry(h.state)) {
+				// open finding KF-14d: the only difference is entries that a Clone relative of this handle
+				// holds (mast's Insert writes a new child into a node object both trees share)
+				leak := 0
+				for k := range unionKeys(got, h.state) {
+					if got[k] == h.state[k] {
+						continue
+					}
+					fromRelative := false
+					for _, o := range hs {
+						if o != nil && o != h && o.group == h.group {
+							if e, ok := o.state[k]; ok && e == got[k] {
+								fromRelative = true
+							}
+						}
+					}
+					if _, mine := h.state[k]; mine || !fromRelative {
+						leak = -1 << 30
+					}
+					leak++
+				}
+				if leak > 0 {
+					x.Fail("C17-clone-leak", "%s: entries written on a Clone relative appear in this handle: tree holds %s, the documented rules give %s", when, fmtState(got), fmtState(h.state))
+					return false
+				}
 				x.Fail("C17-state-differs", "%s: tree holds %s, the documented rules give %s", when, fmtState(got), fmtState(h.state))
 				return false
 			}
@@ -422,7 +450,7 @@ func runC17(x *Exec) {
 						x.Fail("C17-op-failed", "%s: %v", desc, err)
 						return
 					}
-					o.db, o.state, o.dirty = cl, h.state.clone(), h.dirty
+					o.db, o.state, o.dirty, o.group = cl, h.state.clone(), h.dirty, h.group
 				case "diff":
 					o := hs[op.Other]
 					got := map[string]string{}
